@@ -284,3 +284,10 @@ Print Assumptions C03_ext_oer_complete.
 Theorem C03_oer_canonical_is_a_variant : forall t v, oer_var t ch_canon v = oer t v.
 Proof. exact oer_var_canon. Qed.
 Print Assumptions C03_oer_canonical_is_a_variant.
+
+(* the decoder parametrised by the two readers of lengths is the shared reference decoder Rt/Oer.v:oer_dec when given that
+   decoder's readers: oer_cdec differs from it in oer_fetch_length / oer_fetch_quantity (the C's readers) only *)
+Theorem C03_oer_c_decoder_differs_in_length_readers_only : forall t bs,
+  oer_dec_g oer_get_length oer_get_quantity t bs = oer_dec t bs.
+Proof. exact oer_dec_g_ref. Qed.
+Print Assumptions C03_oer_c_decoder_differs_in_length_readers_only.
